@@ -304,6 +304,61 @@ def rule_timer_writers(ctx):
     ctx.floor(R, "writes of view_timeout", n, 2)
 
 
+def rule_bounded_waits(ctx):
+    R = "C06.10"
+    ctx.rule(R, "a wait the replica bounds by its own deadline (ctx.with_timeout / with_deadline inside the bft component) never ends the replica: the expiry of that deadline comes back as ctx::Canceled, which the replica loop and Config::run read as 'the node is shutting down' (the loop returns, run maps Canceled to Ok) - so the outcome of the bounded operation is always handled on the spot (turned into a rejection of the message with map_err, into a timeout with .ok(), matched), never propagated with `?` / wrap() as the handler's internal error. A lagging store or a slow payload then costs a view, not the validator")
+    sites = []
+    for f in ctx.F.fns:
+        if f.in_testonly() or f.crate != "zksync_consensus_bft":
+            continue
+        T = ctx.T(f)
+        for c in T.calls():
+            if c["q"].endswith(("ctx::Ctx::with_timeout", "ctx::Ctx::with_deadline")):
+                sites.append((f, T, T.call_term(f.blocks[c["bb"]]["t"]), c))
+    ctx.floor(R, "deadline-bounded waits in the bft component", len(sites), 3)
+    HANDLED = ("map_err", "ok", "is_ok", "is_err", "unwrap_or", "unwrap_or_else", "unwrap_or_default", "or_else", "err")
+    for f, T, wt, c in sites:
+        users = []
+        for b in f.blocks:
+            t = b["t"]
+            if t["k"] == "call" and "decl" in t["f"]:
+                ct = T.call_term(t)
+                if ct[0] == "call" and ct != wt and any(x == wt for a in ct[2] for x in subterms(a)) and not ct[1].startswith("std::"):
+                    users.append(ct)
+        if not users:
+            ctx.note("C06.10: the bounded context of %s is not passed to a call directly - not decided" % f.qname.split("::", 2)[-1][:50])
+            ctx.ob(R, "bounded wait in %s" % root_fn_name(f), True, "undecided shape (not reported)", f.loc(c["t"].get("ln")))
+            continue
+        bad = None
+        for b in f.blocks:
+            t = b["t"]
+            if t["k"] == "call" and "decl" in t["f"] and f.callee(t)[0].qname == "std::ops::Try::branch":
+                arg = T.operand(t["args"][0])
+                if not any(x in users for x in subterms(arg)):
+                    continue
+                # the adapters between the awaited call and the `?`
+                chain_names = []
+                u = arg
+                while u[0] in ("call", "await", "try") and u not in users:
+                    if u[0] == "call":
+                        chain_names.append(u[1].rsplit("::", 1)[-1])
+                        u = u[2][0] if u[2] else ("cunit",)
+                    else:
+                        u = u[1]
+                if not any(n in HANDLED for n in chain_names):
+                    bad = (show(arg)[:100], chain_names)
+        where = root_fn_name(f)
+        ctx.ob(R, "bounded wait in %s (%s)" % (where, users[0][1].rsplit("::", 1)[-1]), bad is None, "the outcome of the deadline-bounded %s is handled where it is awaited" % users[0][1].rsplit("::", 1)[-1] if bad is None else
+               "the result of the deadline-bounded %s is propagated with `?` (%s): when the replica's own deadline expires the handler returns Internal(Canceled), the replica loop ends and the bft component exits as if the node were shutting down - the validator goes silent for good" % (users[0][1].rsplit("::", 1)[-1], bad[0]), f.loc(c["t"].get("ln")))
+
+
+def root_fn_name(f):
+    r = f
+    while r.parent is not None:
+        r = r.parent
+    return r.qname.split("::")[-1]
+
+
 def rule_dispatch_and_errors(ctx):
     R = "C06.9"
     ctx.rule(R, "replica loop dispatch: each ChonkyMsg variant reaches exactly its own handler, and after a handler ran the loop stops only for the handler's Internal error (cancellation / storage failure) - a rejected message (old, invalid, wrong leader ...) never ends the replica, whatever a peer sends")
@@ -369,4 +424,4 @@ def rule_dispatch_and_errors(ctx):
 
 from .c03 import rule_proposals_roundtrip   # a restarted replica must still hold the payloads it voted for (else the block cannot be built when its certificate forms)
 
-RULES = [("C06.7", rule_payload_cache_retention), ("C03.10", rule_proposals_roundtrip), ("C06.1", rule_main_loop), ("C06.2", rule_timeout_starter), ("C06.3", rule_bootstrap), ("C06.4", rule_catch_up), ("C06.5", rule_view_starter), ("C06.6", rule_proposer), ("C06.8", rule_timer_writers), ("C06.9", rule_dispatch_and_errors)]
+RULES = [("C06.7", rule_payload_cache_retention), ("C03.10", rule_proposals_roundtrip), ("C06.1", rule_main_loop), ("C06.2", rule_timeout_starter), ("C06.3", rule_bootstrap), ("C06.4", rule_catch_up), ("C06.5", rule_view_starter), ("C06.6", rule_proposer), ("C06.8", rule_timer_writers), ("C06.9", rule_dispatch_and_errors), ("C06.10", rule_bounded_waits)]
